@@ -71,6 +71,8 @@ def decorate(rng, c):
     magnitude float64 cannot hold (int64 / uint64 automata), rules returning mixed Python / NumPy integer types."""
     if rng.random() < 0.3:
         c["callform"] = rng.choice(["lambda", "defaults", "partial", "star", "method"])
+    if rng.random() < 0.15 and not c["rule"].startswith("half"):
+        c["mixret"] = "zerod"           # the rule hands back 0-d arrays (np.where(...) on scalars): still "the rule's return value"
     if rng.random() < 0.15:
         c["npform"] = rng.choice(["np64", "np32"])      # signed: an unsigned radius makes -r wrap, the caller's problem
     if c.get("scale", 1) == 1 and c["rule"].startswith(("hash:", "probe:")) and rng.random() < 0.12:
@@ -145,7 +147,32 @@ def weak_cases(rng, n_pairs):
     return out
 
 
+def nf_cases(rng, n):
+    for _ in range(n):
+        yield dict(kind="nf", dim=1, N=rng.randint(3, 9), T=rng.randint(2, 6), memo=rng.choice(["True", "recursive_lit"]), dyn=int(rng.random() < 0.3),
+                   dtype=rng.choice(["float64", "float32"]), seed=rng.randrange(10 ** 6))
+
+
+def nf_oracle(c):
+    """NaN / inf are values like any other: same array, bit for bit, with and without memoization."""
+    from .. import ev1
+    ca = ev1.nf_automaton(c)
+    ts = (lambda a, t: t < c["T"]) if c.get("dyn") else c["T"]
+    try:
+        plain = ev1.nf_evolve(c, ca, ts, "False")
+    except Exception as e:
+        return "memoize=False raised %s on a float automaton producing NaN/inf" % type(e).__name__
+    try:
+        memo = ev1.nf_evolve(c, ca.copy(), ts, c["memo"])
+    except Exception as e:
+        return "memoize=%r raised %s: %s (memoize=False returns an array)" % (ev1.memo_value(c["memo"]), type(e).__name__, str(e)[:60])
+    if memo.shape != plain.shape or memo.dtype != plain.dtype or memo.tobytes() != plain.tobytes():
+        return "memoize=%r differs from memoize=False on a float automaton with NaN/inf states" % (ev1.memo_value(c["memo"]),)
+    return None
+
+
 def gen(ctx):
+    yield from nf_cases(ctx.rng, ctx.n(30, 300))
     yield from weak_cases(ctx.rng, 2 if ctx.tier == "quick" else 8)
     yield from _gen(ctx)
 
@@ -199,11 +226,11 @@ def _gen(ctx):
 
 
 def line(c):
-    return None if c["kind"] in ("seq", "szero") else ev1.line(c)
+    return None if c["kind"] in ("seq", "szero", "nf") else ev1.line(c)
 
 
 def impl(c):
-    if c["kind"] == "szero":
+    if c["kind"] in ("szero", "nf"):
         return "n/a"
     if c["kind"] == "seq":
         if c.get("shared_rule"):
@@ -282,6 +309,8 @@ def szero_run(c, memo):
 
 
 def oracle(c):
+    if c["kind"] == "nf":
+        return nf_oracle(c)
     if c["kind"] == "szero":
         a = szero_run(c, ev1.memo_value(c["memo"]))
         b = szero_run(c, False)
@@ -303,7 +332,7 @@ def oracle(c):
 
 
 def nontrivial(c, ans):
-    if c["kind"] in ("seq", "szero"):
+    if c["kind"] in ("seq", "szero", "nf"):
         return True
     if not ans.startswith("ok") or ev1.mode_of(c["memo"]) == "bad":
         return False
